@@ -218,6 +218,15 @@ func (x *Exec) mathFacts(terms []*Term) []*Term {
 					Implies(Eq(arg, mk("pinf", SXR)), Eq(a, mk("pinf", SXR))))
 			}
 		}
+		// erfc(-a) + erfc(a) = 2 (pairwise, ground)
+		if op == "rfn_erfc" && len(list) <= 8 {
+			for i := 0; i < len(list); i++ {
+				for j := i + 1; j < len(list); j++ {
+					a, b := list[i], list[j]
+					out = append(out, Implies(Eq(a.Args[0], mk("-", SReal, b.Args[0])), Eq(mk("+", SReal, a, b), mk("2.0", SReal))))
+				}
+			}
+		}
 		// pairwise monotonicity
 		mono := map[string]int{"rfn_sqrt": 1, "rfn_exp": 1, "rfn_log": 1, "rfn_erfc": -1}
 		if dir, ok := mono[op]; ok && len(list) <= 6 {
